@@ -238,14 +238,14 @@ class Check(object):
                   (self.prop, f["what"], n, f["key"]))
         shown = 0
         for n, (key, what, replay) in enumerate(self.violations):
-            if shown >= 20:
+            if shown >= 5:
                 break
             path = os.path.join(outdir, "%s-%d.json" % (self.tier, n))
             with open(path, "w") as fh:
                 json.dump({"property": self.prop, "key": key, "what": what, "replay": replay,
                            "tier": self.tier, "seed": self.seed}, fh, indent=1, sort_keys=True)
             print("VIOLATION property=%s replay=%s" % (self.prop, path))
-            print("  detail: %s :: %s" % (key, what[:500]))
+            print("  detail: %s :: %s" % (key, what[:300]))
             shown += 1
         cov = {
             "states": max(self.states, 0),
